@@ -58,6 +58,12 @@ func cliFilterWorld(rc *RunCtx, prop string) {
 	if withL {
 		args = append(args, "-l")
 	}
+	if sc.IgnoreCase {
+		args = append(args, "-I")
+	}
+	if sc.Gunzip {
+		args = append(args, "-z")
+	}
 	args = append(args, "--batch", strconv.Itoa(sc.Batch), "--workers", strconv.Itoa(sc.Workers), "--batch-buffer", strconv.Itoa(sc.Buffer))
 	s := rc.NewSim(simrt.Opts{MaxSteps: 400000, IdleLimit: time.Hour, Knobs: sc.knobs()})
 	sc.installPlans(s)
